@@ -308,16 +308,16 @@ func TestVF_C12_Forgeries(t *testing.T) {
 		// descriptor and response alterations of the first carried range proof
 		rp := func(l ProofList) *rangeproof.Proof { return A(l).RangeProofs[first][0] }
 		alts := map[string]func(l ProofList) bool{
-			"k+1":        func(l ProofList) bool { rp(l).K.Add(rp(l).K, bi(1)); return true },
-			"k-1":        func(l ProofList) bool { rp(l).K.Sub(rp(l).K, bi(1)); return rp(l).K.Sign() >= 0 },
-			"k+4":        func(l ProofList) bool { rp(l).K.Add(rp(l).K, bi(4)); return true },
-			"k=0":        func(l ProofList) bool { ok := rp(l).K.Sign() != 0; rp(l).K.SetInt64(0); return ok },
-			"k-huge":     func(l ProofList) bool { rp(l).K.Lsh(bi(1), pk.Params.Lm+64); return true },
-			"k-too-huge": func(l ProofList) bool { rp(l).K.Lsh(bi(1), pk.Params.Lm+65); return true },
-			"a+1":        func(l ProofList) bool { rp(l).A++; return true },
-			"a=0":        func(l ProofList) bool { rp(l).A = 0; return true },
-			"a=2^63":     func(l ProofList) bool { rp(l).A = 1 << 63; return true },
-			"a*4":        func(l ProofList) bool { rp(l).A *= 4; return true },
+			"k+1":          func(l ProofList) bool { rp(l).K.Add(rp(l).K, bi(1)); return true },
+			"k-1":          func(l ProofList) bool { rp(l).K.Sub(rp(l).K, bi(1)); return rp(l).K.Sign() >= 0 },
+			"k+4":          func(l ProofList) bool { rp(l).K.Add(rp(l).K, bi(4)); return true },
+			"k=0":          func(l ProofList) bool { ok := rp(l).K.Sign() != 0; rp(l).K.SetInt64(0); return ok },
+			"k-huge":       func(l ProofList) bool { rp(l).K.Lsh(bi(1), pk.Params.Lm+64); return true },
+			"k-too-huge":   func(l ProofList) bool { rp(l).K.Lsh(bi(1), pk.Params.Lm+65); return true },
+			"a+1":          func(l ProofList) bool { rp(l).A++; return true },
+			"a=0":          func(l ProofList) bool { rp(l).A = 0; return true },
+			"a=2^63":       func(l ProofList) bool { rp(l).A = 1 << 63; return true },
+			"a*4":          func(l ProofList) bool { rp(l).A *= 4; return true },
 			"sign-flipped": func(l ProofList) bool { rp(l).Sign = -rp(l).Sign; return true },
 			"sign=0":       func(l ProofList) bool { rp(l).Sign = 0; return true },
 			"sign=2":       func(l ProofList) bool { rp(l).Sign = 2; return true },
@@ -334,10 +334,10 @@ func TestVF_C12_Forgeries(t *testing.T) {
 				c[0], c[1] = c[1], c[0]
 				return true
 			},
-			"C0*S":  func(l ProofList) bool { rp(l).Cs[0].Mul(rp(l).Cs[0], pk.S).Mod(rp(l).Cs[0], pk.N); return true },
-			"d0+1":  func(l ProofList) bool { rp(l).DResponses[0].Add(rp(l).DResponses[0], bi(1)); return true },
-			"v0+1":  func(l ProofList) bool { rp(l).VResponses[0].Add(rp(l).VResponses[0], bi(1)); return true },
-			"v5+1":  func(l ProofList) bool { rp(l).V5Response.Add(rp(l).V5Response, bi(1)); return true },
+			"C0*S": func(l ProofList) bool { rp(l).Cs[0].Mul(rp(l).Cs[0], pk.S).Mod(rp(l).Cs[0], pk.N); return true },
+			"d0+1": func(l ProofList) bool { rp(l).DResponses[0].Add(rp(l).DResponses[0], bi(1)); return true },
+			"v0+1": func(l ProofList) bool { rp(l).VResponses[0].Add(rp(l).VResponses[0], bi(1)); return true },
+			"v5+1": func(l ProofList) bool { rp(l).V5Response.Add(rp(l).V5Response, bi(1)); return true },
 			"ds-swapped": func(l ProofList) bool {
 				d := rp(l).DResponses
 				if d[0].Cmp(d[1]) == 0 {
